@@ -28,7 +28,7 @@ LEVEL_NOTE = ('Finite value alphabets; sums reorder under permutation, so permut
 RULE = ("cases: (kind, configuration, chunk); executions: Fitter.fit calls compared pairwise; for histories a state is (fitter canonical hash, history) and a transition one fit; "
         "non-trivial = distinct non-identity permutations / constants != 1 / histories of length >= 2")
 ASSUMPTIONS = ["finite value alphabets", "canonical encoding of Fitter covers all state that can influence a fit (models.fluxes, names, wavelengths, distances, logd, extended, av_law, sc_law, av_range, filters)"]
-REQUIRED_CLASSES = ['history-same-flags-different-photometry', 'integer-typed-photometry', 'earlier-results-rechecked', 'both-limit-kinds-different-confidence', 'filter-perm', 'model-perm-files', 'brightness-constant', 'history-len3', 'history-repeat-same-source', 'mode-2d', 'mode-3d', 'float32-path',
+REQUIRED_CLASSES = ['model-perm-hundreds-of-models', 'filter-list-mixes-names-and-wavelengths', 'history-on-package-with-a-dead-model', 'history-same-flags-different-photometry', 'integer-typed-photometry', 'earlier-results-rechecked', 'both-limit-kinds-different-confidence', 'filter-perm', 'model-perm-files', 'brightness-constant', 'history-len3', 'history-repeat-same-source', 'mode-2d', 'mode-3d', 'float32-path',
                     'source-with-limits', 'source-all-flag4']
 TIMEOUT = {'quick': 600, 'thorough': 3000}
 
@@ -61,6 +61,12 @@ def setup(tier, seed):
                     out.append({'kind': 'mperm', 'mode': mode, 'variant': iv, 'k': k, 'first': i, 'count': min(12, len(perms) - i)})
             for s0 in range(N_SRC):
                 out.append({'kind': 'hist', 'mode': mode, 'variant': iv, 'first_source': s0})
+            # histories on a package in which one model emits nothing in one band (its rows are undefined, and must stay so)
+            for s0 in ((0, 3) if tier == 'quick' else range(N_SRC)):
+                out.append({'kind': 'hist', 'mode': mode, 'variant': iv, 'first_source': s0, 'dead': True})
+            # scale: a few hundred models, scrambled and reversed (most of them clipped at an end of the A_V range)
+            if iv != 1 or tier == 'thorough':
+                out.append({'kind': 'mperm', 'mode': mode, 'variant': iv, 'k': 300 if tier == 'quick' else 700, 'first': 0, 'count': 2, 'big': True})
     if tier == 'thorough':
         for k in (6, 7, 8):
             n = len(list(itertools.permutations(range(k)))) if k < 8 else 40320
@@ -100,15 +106,19 @@ def _res(info, names):
     return fc._asf(info.av)[rows], fc._asf(info.sc)[rows], fc._asf(info.chi2)[rows]
 
 
-def _build(d, tag, mode, fmt, names, bands_pkg, seed, perm=None, n_models=None):
+def _build(d, tag, mode, fmt, names, bands_pkg, seed, perm=None, n_models=None, dead=False):
     """physical grid depends on seed only; perm reorders the package."""
     n_models = n_models or len(names)
     if mode == '2d':
         f = fc.grid2d(seed * 10 + 6, n_models=n_models, bands=bands_pkg, special=False)
+        if dead:
+            f[2, 1] = 0.0
         p = list(range(n_models)) if perm is None else list(perm)
         spec = {'fmt': fmt, 'names': [names[i] for i in p], 'bands': bands_pkg, 'flux': f[p]}
         return fc.build_package(d, tag, spec), f, None
     ap, t = fc.grid3d(seed * 10 + 8, n_models=n_models, n_ap=3, bands=bands_pkg)
+    if dead:
+        t[2, 1, :] = 0.0
     p = list(range(n_models)) if perm is None else list(perm)
     spec = {'fmt': fmt, 'names': [names[i] for i in p], 'bands': bands_pkg, 'apertures': ap, 'tables': t[p], 'logd_step': 0.25}
     return fc.build_package(d, tag, spec), t, ap
@@ -191,7 +201,11 @@ def run_case(ctx, case, rec, d):
                 fl[j] = base[j] * 3.0
         if kf >= 4:
             rec.cls('both-limit-kinds-different-confidence')
-        ident = fc.make_fitter(md, bands_all, 'power', avr, theta=theta, **kw)
+        # in cube packages the filter list mixes names and wavelengths (every second band is given by its wavelength)
+        mixed = [bool(fmt == 'v2' and j % 2 == 1) for j in range(kf)]
+        if any(mixed):
+            rec.cls('filter-list-mixes-names-and-wavelengths')
+        ident = fc.make_fitter(md, bands_all, 'power', avr, theta=theta, **dict(kw, by_wavelength=mixed))
         b0 = _res(ident.fit(fc.make_source(flags, fl, er)), names)
         f32 = fc.observed_f32(ident)
         if f32:
@@ -199,7 +213,7 @@ def run_case(ctx, case, rec, d):
         perms = list(itertools.permutations(range(kf)))[case['first']:case['first'] + case['count']]
         for p in perms:
             p = list(p)
-            fp = fc.make_fitter(md, [bands_all[i] for i in p], 'power', avr, theta=theta[p], **kw)
+            fp = fc.make_fitter(md, [bands_all[i] for i in p], 'power', avr, theta=theta[p], **dict(kw, by_wavelength=[mixed[i] for i in p]))
             r = _res(fp.fit(fc.make_source([flags[i] for i in p], fl[p], er[p])), names)
             rec.ev(len(names))
             rec.trans()
@@ -226,9 +240,12 @@ def run_case(ctx, case, rec, d):
         f0 = fc.make_fitter(md0, B4, 'power', avr, **kw)
         b0 = _res(f0.fit(fc.make_source(flags, fl, er)), names)
         f32 = fc.observed_f32(f0)
-        perms = list(itertools.permutations(range(km)))[case['first']:case['first'] + case['count']]
-        for p in perms:
-            md, _, _ = _build(d, 'pkg_' + ''.join(map(str, p)), mode, fmt, names, B4, seed, perm=p, n_models=km)
+        perms = list(itertools.permutations(range(km)))[case['first']:case['first'] + case['count']] if not case.get('big') else \
+            [tuple((i * 7919 + 5) % km for i in range(km)), tuple(range(km))[::-1]]
+        if case.get('big'):
+            rec.cls('model-perm-hundreds-of-models')
+        for ip_, p in enumerate(perms):
+            md, _, _ = _build(d, 'pkg_%d_%d' % (case['first'], ip_), mode, fmt, names, B4, seed, perm=p, n_models=km)
             fp = fc.make_fitter(md, B4, 'power', avr, **kw)
             r = _res(fp.fit(fc.make_source(flags, fl, er)), names)
             rec.ev(km)
@@ -246,7 +263,9 @@ def run_case(ctx, case, rec, d):
 
     if kind == 'hist':
         names = fc.names_for(5)
-        md, f, ap = _build(d, 'pkg', mode, fmt, names, B4, seed)
+        md, f, ap = _build(d, 'pkg', mode, fmt, names, B4, seed, dead=case.get('dead', False))
+        if case.get('dead'):
+            rec.cls('history-on-package-with-a-dead-model')
         kk = fc.law_k('power', [fc.BAND_WAV[b] for b in B4])
         base = (f[3] if mode == '2d' else f[3][:, 1]) * 10 ** (1.1 * kk) * (2.0 if mode == '2d' else 0.7)
         srcs = _sources(seed, base, mode)
